@@ -97,6 +97,12 @@ func c08cpNamespace(b *mb, ns string, dep string, feat int, top bool, hasProtoco
 			steps = append(steps, b.step("tags", b.strm(b.gt(nil, b.st(dep+".Point"), b.st("float")))))
 		}
 	}
+	if feat&c08cpUnions != 0 && feat&c08cpGenerics != 0 {
+		// a closed alias of a generic whose type arguments are two DIFFERENT unions: the unions are nested in a named type
+		// without being the named type
+		defs = append(defs, b.alias(ns, "ChoicePair", nil, b.st("Pair", b.gt(nil, b.st("int"), b.st("float")), b.gt(nil, b.st("string"), b.st("bool")))))
+		shape = append(shape, b.field("choice", b.st("ChoicePair")))
+	}
 	if feat&c08cpComputed != 0 {
 		seg := b.record(ns, "Segment", nil, b.field("start", b.st("Point")), b.field("stop", b.st("Point")))
 		seg.ComputedFields = dsl.ComputedFields{
